@@ -678,7 +678,7 @@ type guardInfo struct {
 // depthGuard recognises: entry increments an int field of the receiver,
 // compares it with a constant; the greater branch panics or returns; every
 // package call is dominated by the non-greater edge.
-func (w *World) depthGuard(fn *ssa.Function) *guardInfo {
+func (w *World) depthGuardInline(fn *ssa.Function) *guardInfo {
 	if fn.Signature.Recv() == nil || len(fn.Blocks) == 0 {
 		return nil
 	}
@@ -783,6 +783,140 @@ func (w *World) depthGuard(fn *ssa.Function) *guardInfo {
 		}
 	}
 	return g
+}
+
+// depthGuard recognises a depth-guard function: either the guard is written
+// in the function itself (depthGuardInline), or the function's first package
+// call, in its entry block, is a call on its own receiver of a leaf helper
+// that increments the counter and panics beyond the limit (the decrement may
+// likewise be a leaf helper). A leaf function (no package calls) is never a
+// guard itself: it has no recursion to cut.
+func (w *World) depthGuard(fn *ssa.Function) *guardInfo {
+	if fn.Signature.Recv() == nil || len(fn.Blocks) == 0 {
+		return nil
+	}
+	if w.isLeaf(fn) {
+		return nil
+	}
+	if g := w.depthGuardInline(fn); g != nil {
+		if !g.Dec {
+			g.Dec = w.callsDecHelper(fn, g.Field)
+		}
+		return g
+	}
+	for _, in := range fn.Blocks[0].Instrs {
+		ci, ok := in.(ssa.CallInstruction)
+		if !ok {
+			continue
+		}
+		if ci.Common().IsInvoke() {
+			return nil
+		}
+		c := ci.Common().StaticCallee()
+		if c == nil || !w.inPkg(c) {
+			continue
+		}
+		// the first package call
+		if len(ci.Common().Args) == 0 || !isRecv(ci.Common().Args[0]) || !w.isLeaf(c) {
+			return nil
+		}
+		h := w.depthGuardInline(c)
+		if h == nil || !w.exceedPanics(c) {
+			return nil
+		}
+		g := &guardInfo{Field: h.Field, Limit: h.Limit}
+		// decrement in fn or through a leaf helper
+		for _, blk := range fn.Blocks {
+			for _, x := range blk.Instrs {
+				if st, ok := x.(*ssa.Store); ok {
+					if f, ok := recvFieldAddr(st.Addr); ok && f.Name() == g.Field {
+						if bo, ok := st.Val.(*ssa.BinOp); ok && bo.Op == token.SUB {
+							g.Dec = true
+						}
+					}
+				}
+			}
+		}
+		if !g.Dec {
+			g.Dec = w.callsDecHelper(fn, g.Field)
+		}
+		return g
+	}
+	return nil
+}
+
+func (w *World) isLeaf(fn *ssa.Function) bool {
+	leaf := true
+	eachInstr(fn, false, func(_ *ssa.Function, in ssa.Instruction) {
+		if ci, ok := in.(ssa.CallInstruction); ok {
+			if ci.Common().IsInvoke() {
+				leaf = false
+			} else if c := ci.Common().StaticCallee(); c != nil && w.inPkg(c) {
+				leaf = false
+			} else if c == nil {
+				if _, isB := ci.Common().Value.(*ssa.Builtin); !isB {
+					leaf = false
+				}
+			}
+		}
+	})
+	return leaf
+}
+
+// exceedPanics: in guard helper c every path that leaves through the
+// "counter too large" side ends in a panic (a helper that merely returned
+// would not stop its caller).
+func (w *World) exceedPanics(c *ssa.Function) bool {
+	ifi := blockIf(c.Blocks[0])
+	if ifi == nil {
+		return false
+	}
+	okAll := false
+	for _, s := range c.Blocks[0].Succs {
+		allPanic := true
+		for b := range reachableFrom(s, nil) {
+			if _, isRet := b.Instrs[len(b.Instrs)-1].(*ssa.Return); isRet {
+				allPanic = false
+			}
+		}
+		if allPanic {
+			okAll = true
+		}
+	}
+	return okAll
+}
+
+// decHelpers: leaf methods whose body decrements the named receiver field.
+func (w *World) isDecHelper(c *ssa.Function, field string) bool {
+	if c == nil || !w.inPkg(c) || c.Signature.Recv() == nil || !w.isLeaf(c) {
+		return false
+	}
+	dec := false
+	eachInstr(c, false, func(_ *ssa.Function, in ssa.Instruction) {
+		if st, ok := in.(*ssa.Store); ok {
+			if f, ok := recvFieldAddr(st.Addr); ok && f.Name() == field {
+				if bo, ok := st.Val.(*ssa.BinOp); ok && bo.Op == token.SUB {
+					dec = true
+				}
+			}
+		}
+	})
+	return dec
+}
+
+func (w *World) callsDecHelper(fn *ssa.Function, field string) bool {
+	found := false
+	eachInstr(fn, false, func(_ *ssa.Function, in ssa.Instruction) {
+		if ci, ok := in.(ssa.CallInstruction); ok {
+			if _, isDefer := in.(*ssa.Defer); isDefer {
+				// counted by overDecrement
+			}
+			if c := ci.Common().StaticCallee(); c != nil && len(ci.Common().Args) > 0 && isRecv(ci.Common().Args[0]) && w.isDecHelper(c, field) {
+				found = true
+			}
+		}
+	})
+	return found
 }
 
 func ruleTDepth(w *World, r *Report) {
@@ -1061,7 +1195,11 @@ func (w *World) mustConsumers(prim *ssa.Function, scope map[*ssa.Function]bool) 
 // condConsumer: G begins with `for P(recv.curr) { ... consumer ... }`: if P
 // holds of the current character on entry, G consumes. Returns P.
 func (w *World) condConsumer(g *ssa.Function, mc map[*ssa.Function]bool) *ssa.Function {
-	if len(g.Blocks) == 0 || g.Signature.Recv() == nil {
+	return w.condConsumerD(g, mc, 0)
+}
+
+func (w *World) condConsumerD(g *ssa.Function, mc map[*ssa.Function]bool, depth int) *ssa.Function {
+	if len(g.Blocks) == 0 || g.Signature.Recv() == nil || depth > 4 {
 		return nil
 	}
 	isCons := func(in ssa.Instruction) bool {
@@ -1083,6 +1221,15 @@ func (w *World) condConsumer(g *ssa.Function, mc map[*ssa.Function]bool) *ssa.Fu
 		for _, in := range b.Instrs {
 			if isCons(in) {
 				return nil // consumes unconditionally first: a must-consumer candidate, not conditional
+			}
+			// the first thing done is to call, on the same receiver, a function
+			// that is itself a conditional consumer: same predicate
+			if ci, ok := in.(ssa.CallInstruction); ok {
+				if c := ci.Common().StaticCallee(); c != nil && c != g && w.inPkg(c) && c.Signature.Recv() != nil && len(ci.Common().Args) > 0 && isRecv(ci.Common().Args[0]) {
+					if p := w.condConsumerD(c, mc, depth+1); p != nil {
+						return p
+					}
+				}
 			}
 		}
 		if ifi := blockIf(b); ifi != nil {
@@ -1545,6 +1692,11 @@ func (w *World) overDecrement(fn *ssa.Function, field string) ssa.Instruction {
 	decs := func(in ssa.Instruction) int {
 		if isDec(in) {
 			return 1
+		}
+		if c, ok := in.(*ssa.Call); ok {
+			if f := c.Call.StaticCallee(); f != nil && len(c.Call.Args) > 0 && isRecv(c.Call.Args[0]) && w.isDecHelper(f, field) {
+				return 1
+			}
 		}
 		if d, ok := in.(*ssa.Defer); ok {
 			var cf *ssa.Function
